@@ -99,11 +99,38 @@ def sparse_history(rng, tier):
     lines.append('da_rd %s %s %s %d' % (dt, A.idx([n0]), A.idx([0]), n0))
     return lines
 
+def big_initial_history(rng, tier):
+    """an array CREATED large (so that the chunk guess has to cut the shape down, in one or two dimensions), written in a few places
+    far apart and read back there and where nothing was written"""
+    dt = rng.choice(['Int32', 'Double', 'Int64', 'Float', 'UInt8', 'Int16', 'UInt64'])
+    shape = rng.choice([[20000], [40000], [9000], [150, 150], [300, 40], [7, 3000], [30, 30, 30]])
+    lines = ['da_new %s %s %s %s' % (dt, A.idx(shape), rng.choice(['deflate', 'none', 'auto']), rng.choice(['auto', 'deflate', 'none']))]
+    spots = []
+    for _ in range(rng.randint(2, 4)):
+        cnt = [rng.randint(1, min(3, x)) for x in shape]
+        off = [rng.choice([0, x - c, rng.randint(0, x - c)]) for x, c in zip(shape, cnt)]
+        n = 1
+        for c in cnt: n *= c
+        lines.append('da_wr %s %s %s %s' % (dt, A.idx(cnt), A.idx(off), lst([A.small_value(dt, rng) for _ in range(n)])))
+        spots.append((cnt, off, n))
+    if rng.random() < 0.5: lines.append('da_reopen %s' % rng.choice(['ro', 'rw']))
+    for cnt, off, n in spots:
+        lines.append('da_rd %s %s %s %d' % (dt, A.idx(cnt), A.idx(off), n))
+    for _ in range(2):
+        cnt = [rng.randint(1, min(4, x)) for x in shape]
+        off = [rng.randint(0, x - c) for x, c in zip(shape, cnt)]
+        n = 1
+        for c in cnt: n *= c
+        lines.append('da_rd %s %s %s %d' % (dt, A.idx(cnt), A.idx(off), n))
+    lines.append('da_shape')
+    return lines
+
 def cases(tier, seed, rng):
     from vlib.runner import Case
     n = 150 if tier == 'quick' else 3000
     out = [Case(history(rng, tier), 'gen:array') for _ in range(n)]
     out += [Case(sparse_history(rng, tier), 'gen:sparse-growth') for _ in range(6 if tier == 'quick' else 100)]
+    out += [Case(big_initial_history(rng, tier), 'gen:big-initial') for _ in range(6 if tier == 'quick' else 100)]
     return out
 
 def nontrivial(case, tags):
